@@ -426,6 +426,43 @@ theorem C12_followup_no_upstream_route (cfg : Cfg) (m : Nat → Bool) (pick : Na
     simp [hnone, afterRoutes]
   exact ⟨h, by rw [h], by rw [h], by rw [h]⟩
 
+/-- **C12 later request of a connection with an upstream route.**  Whatever an
+earlier request left in the object (`s.choice`, `s.upstream`, `s.connects`), a
+later request whose winning hit yields URL `u` is connected to `u`'s host and
+port and is forwarded there, retargeted exactly as a first request would be —
+the upstream an earlier request chose plays no part in it. -/
+theorem C12_followup_target (cfg : Cfg) (m : Nat → Bool) (pick : Nat → Nat) (t : Table) (req : Parser) (s : St)
+    (u : Url) (h mth ver : Bytes) (hp : req.path.isSome = true)
+    (hc : Clean cfg pick (hits m 0 t))
+    (hw : ((hits m 0 t).filterMap (urlOf cfg pick)).getLast? = some u)
+    (hh : HostOk u h) (hb : Buildable req mth ver) (hn : cfg.bufSize ≠ 0) :
+    ∃ body, bodyOrChunks cfg.bufSize req = .ok body ∧
+      handleRequest cfg m pick true t req s =
+        ⟨{ s with
+            choice := some u,
+            client := { s.client with buffer := s.client.buffer ++ (hits m 0 t).filterMap (litOf cfg pick) },
+            upstream := some ⟨[buildRequest [] mth (fwdPath u) ver none (fwdHeaders cfg req (hostArg cfg u h))
+                                 body false true], false⟩,
+            connects := s.connects ++ [(connectHost h, portOf cfg u)],
+            wraps := if u.scheme == some cfg.httpsProto then s.wraps ++ [h] else s.wraps },
+         false, none⟩ := by
+  obtain ⟨body, hbody, _, _⟩ := bodyOrChunks_ok cfg.bufSize hn req
+  refine ⟨body, hbody, ?_⟩
+  obtain ⟨hm, hmne, hv, hvne, hty⟩ := hb
+  obtain ⟨hh1, hh2, hh3⟩ := hh
+  have hpkt := build_shape cfg req u (hostArg cfg u h) mth ver body hm hmne hv hvne hty hbody
+  have hpath : req.path.isNone = false := by cases hq : req.path <;> simp_all
+  have hne : ((hits m 0 t).filterMap (urlOf cfg pick)).isEmpty = false := by
+    cases hl : (hits m 0 t).filterMap (urlOf cfg pick) with
+    | nil => rw [hl] at hw; simp at hw
+    | cons _ _ => rfl
+  unfold handleRequest
+  simp only [hpath, Bool.false_and, Bool.false_eq_true, if_false]
+  rw [routeLoop_clean cfg m pick t 0 s false hc]
+  simp only [hne, Bool.not_false, Bool.false_or]
+  rw [forward_ok cfg req _ u h _ (by simp [afterRoutes, hw]) hh1 hh2 hh3 hpkt]
+  simp [afterRoutes, hw]
+
 /-- … in particular when no route matches at all, whatever the earlier state is -/
 theorem C12_followup_no_route (cfg : Cfg) (m : Nat → Bool) (pick : Nat → Nat) (connectOk : Bool)
     (t : Table) (req : Parser) (s : St) (hp : req.path.isSome = true) (hno : anyMatch m t = false) :
